@@ -12,7 +12,7 @@ pub fn def() -> PropDef {
         judge,
         run,
         shrink: Shrink::Bytes,
-        render: render_bytes,
+        render: render_seq_or_bytes,
         rule: "every input of U2-ctl (all 65536 control-byte pairs), U2-len (24 valid pairs x all 65536 lengths x presence boundaries), U2-sig, U2-addr, U2-byte is parsed by v2::Header::try_from and compared with the table-driven reference; non-trivial = signature matches and >= 16 bytes present; distinct = hash of (control bytes, length field, bytes present, first 64 payload bytes)",
         assumptions: &[
             "payload bytes beyond the address block do not influence acceptance (the reference ignores them; U2-byte and the TLV universes vary them)",
@@ -84,7 +84,17 @@ pub fn same_bytes(a: &[u8], b: &[u8]) -> bool {
     (a.as_ptr() == b.as_ptr() && a.len() == b.len()) || a == b
 }
 
-pub fn judge(input: &[u8], acc: &mut Acc) {
+pub fn judge(case: &[u8], acc: &mut Acc) {
+    match decode_seq(case) {
+        Some(parts) => {
+            history_differential(&parts, acc, &parse_entries());
+            judge_history_case(&parts, acc, warm_all, judge_plain)
+        }
+        None => judge_plain(case, acc),
+    }
+}
+
+pub fn judge_plain(input: &[u8], acc: &mut Acc) {
     let o = o2::verdict(input);
     let r = v2_parse(input);
     acc.eval(1);
@@ -138,4 +148,9 @@ pub fn judge(input: &[u8], acc: &mut Acc) {
 
 pub fn run(run: &Run) {
     explore_all(run, &v2_universes(run.tier));
+    explore_all(run, &seq_universes(run.tier, false, true));
+    // headers whose payload after the address block is structured (every TLV type byte, lengths, fills; nested SSL; long runs)
+    run.explore(&super::c11::EmbeddedStructured::new(false));
+    run.explore(&super::c11::EmbeddedTlv { n: run.tier.pick(6, 8) });
+    run.explore(&super::c11::EmbeddedText { n: run.tier.pick(6, 8) });
 }
